@@ -48,7 +48,7 @@ EXPECTED_GUARDS = {
     ('decl.c', 'array element has incomplete type'): ['base.type->incomplete'],
     ('decl.c', 'array element has function type'): ['base.type->kind == TYPEFUNC'],
     ('decl.c', 'array length must be non-negative'): ['e->type->u.basic.issigned && e->u.constant.u >> 63'],
-    ('decl.c', 'array length is too large'): ['e->u.constant.u > ULLONG_MAX / base.type->size'],
+    ('decl.c', 'array length is too large'): ['base.type->size && e->u.constant.u > ULLONG_MAX / base.type->size'],   # size 0: only for GNU zero-length element types (outside the model, whose esize = 0 means a variably sized element)
     ('pp.c', "not enough arguments for macro '%s'"): ['i + 1 < m->nparam'],
     ('pp.c', "too many arguments for macro '%s'"): ['t->kind != TRPAREN || m->nparam > 0 && i == m->nparam'],
     ('pp.c', 'EOF when reading macro parameters'): ['t->kind == TEOF'],
